@@ -287,6 +287,8 @@ def run(p: Program, rep: Report, tier: str) -> None:
             if okm:
                 got = True
                 rep.ok("R9.4", "hosts: entry returned only after pattern.fullmatch(host) succeeded")
+            elif okm is False and any(t[0] == "call" and t[1] in (("builtin", "filter"), ("builtin", "next"), ("builtin", "map"), ("ext", "itertools.dropwhile"), ("ext", "itertools.compress")) for f, _t in pa.facts for t in subterms(f)):
+                rep.undecide("R9.4", "the host entry is selected by a filter/next pipeline with a predicate object; the acceptance test is not read off it: " + "; ".join(pa.fact_text())[:100])
             elif okm is False:
                 rep.violation("R9.4", construct(hsearch, text="accept: " + "; ".join(pa.fact_text())), where(hsearch), "host entry accepted without a fullmatch of the Host header")
     if not any(pa.exit == "return" and pa.value == NONE for pa in paths):
